@@ -184,9 +184,30 @@ class Built:
     def declare_vars(self, order=None):
         ids = [v[0] for v in self.case['vars']]
         by_id = {v[0]: v for v in self.case['vars']}
+        from entity_query_language import From
+        pform = self.case.get('pform') or {}
         for vid in (order or ids):
             _, cls, raw = by_id[vid]
-            self.vars[vid] = let(self.classes[cls], [self.decode(v) for v in raw], name=f"v{vid}")
+            if vid in pform:
+                # predicate form: T(From(d), *positional, **keywords); values are constants, variables
+                # declared earlier, or nested predicate-form terms
+                spec = pform[vid]
+                pos = [self.pform_value(v) for v in spec.get('pos', [])]
+                kw = {k: self.pform_value(v) for k, v in spec.get('kw', [])}
+                self.vars[vid] = self.classes[cls](From([self.decode(v) for v in raw]), *pos, **kw)
+            else:
+                self.vars[vid] = let(self.classes[cls], [self.decode(v) for v in raw], name=f"v{vid}")
+
+    def pform_value(self, v):
+        from entity_query_language import From
+        if v[0] == 'lit':
+            return self.decode(v[1])
+        if v[0] == 'var':
+            return self.vars[v[1]]
+        if v[0] == 'nested':
+            _, cls, raw, kw = v
+            return self.classes[cls](From([self.decode(x) for x in raw]), **{k: self.decode(val) for k, val in kw})
+        raise ValueError(v)
 
     def term(self, t):
         k = t[0]
@@ -267,9 +288,12 @@ class Built:
             return f"(lit {self.render(data[0])})"
         if isinstance(e, Var):
             for vid, v in self.vars.items():
-                if v is e:
+                if v is e or getattr(v, '_var_', None) is e:
                     return f"(var {vid})"
             return f"(var ?{e._name__})"
+        from entity_query_language.symbolic import ResultQuantifier as _RQ
+        if isinstance(e, _RQ):
+            return self.show_term(e._var_)
         if isinstance(e, Call):
             recv = e._child_
             args = ' '.join(self.render(a) for a in e._args_)
